@@ -4,6 +4,7 @@ One harness (harness/c01.cpp, asan flavour; the 1000-element scale members also 
 are the real ones). case = (seed document set, <= 2 deviations, parser mode[, isolated pipeline stage])."""
 import json
 import os
+import time
 import sup
 
 
@@ -19,17 +20,20 @@ def main(tier):
     def fam(name, flavour='asan', **kw):
         if only and name not in only.split(','):
             return
+        t = time.time()
         c.run_family(flavour, 'c01', name, **kw)
+        c.notes.append('family %s: %.1f s wall' % (name, time.time() - t))
 
     # quick: every seed; every single deviation (families a-d + document bytes) of the math-free seeds x both parser modes;
     # MathML shapes of depth <= 2 (quick blocks); scale up to 250; cycles of length 1-3, every stage in isolation
     fam('seeds', per_case_timeout=30, chunk=1)
     fam('cycles', per_case_timeout=20, chunk=6)
-    fam('scale', per_case_timeout=60, chunk=4)
+    fam('scale', per_case_timeout=60, chunk=2)
     fam('dev1_mf', per_case_timeout=5)
     fam('shape_q', per_case_timeout=10)
     if not quick:
         fam('scale_hang', flavour='plain', per_case_timeout=4, chunk=1)
+        fam('scale_mid', per_case_timeout=60, chunk=1)
         fam('scale_big', flavour='plain', per_case_timeout=120, chunk=1)
         fam('shape_d3', per_case_timeout=10)
         fam('dev1_math', per_case_timeout=10)
@@ -52,7 +56,7 @@ def main(tier):
              'seeds; shape_* = MathML trees over the validator\'s own vocabulary (supportedMathMLElements) + {csymbol, lambda, semantics, unknownop, sum}: '
              'apply(head, 0-3 ci|cn operands) and container(name, 0-3 children) top-level and as right-hand side, apply(H, C) for all H and C, one arbitrary '
              'operand among <= 3, containers with one arbitrary child, 10 filled qualifier forms in 5 arrangements, depth 3 over 14 arity-sensitive operators; '
-             'scale = 16 structures x n in {1,10,100,250} (+1000 on the plain build) x 8 isolated stages x 2 modes; cycles = 12 kinds x length 1-3 x 8 isolated '
+             'scale = 16 structures x n in {1,10,100} (thorough: 250, and 1000 on the plain build) x 8 isolated stages x 2 modes; cycles = 12 kinds x length 1-3 x 8 isolated '
              'stages x 2 modes. judged = cases whose pipeline ran and returned (the crash oracle covers the others: a dead worker is a violation at that index); '
              '%d of the judged cases also carry the weak expectation ">= 1 error/warning reported"' % weak,
         assumptions=[
